@@ -7,6 +7,7 @@ import (
 	"bytes"
 	"encoding/hex"
 	"fmt"
+	"math"
 	"strconv"
 	"strings"
 	"time"
@@ -222,8 +223,14 @@ func placeholderState(l *sqlLexer) stateFn {
 		l.pos += width
 
 		if '0' <= r && r <= '9' {
-			num *= 10
-			num += int(r - '0')
+			// saturate instead of wrapping around: $18446744073709551617
+			// must not turn into $1
+			if num > (math.MaxInt32-9)/10 {
+				num = math.MaxInt32
+			} else {
+				num *= 10
+				num += int(r - '0')
+			}
 		} else {
 			l.parts = append(l.parts, num)
 			l.pos -= width
